@@ -12,9 +12,11 @@ var _ Pass = (*UndiscriminatedDisjunctionToAny)(nil)
 // discriminator field and mapping are not impacted (see DisjunctionInferMapping).
 // Note: this pass _should_ run after DisjunctionInferMapping.
 type UndiscriminatedDisjunctionToAny struct {
+	schemas ast.Schemas
 }
 
 func (pass *UndiscriminatedDisjunctionToAny) Process(schemas []*ast.Schema) ([]*ast.Schema, error) {
+	pass.schemas = schemas
 	visitor := &Visitor{
 		OnDisjunction: pass.processDisjunction,
 	}
@@ -60,7 +62,7 @@ func (pass *UndiscriminatedDisjunctionToAny) hasOnlySingleTypeScalars(schema *as
 		return false
 	}
 
-	firstBranchType, found := schema.Resolve(branches[0])
+	firstBranchType, found := pass.schemas.Resolve(branches[0])
 	if !found {
 		return false
 	}
@@ -71,7 +73,7 @@ func (pass *UndiscriminatedDisjunctionToAny) hasOnlySingleTypeScalars(schema *as
 
 	scalarKind := firstBranchType.AsScalar().ScalarKind
 	for _, t := range branches {
-		resolvedType, found := schema.Resolve(t)
+		resolvedType, found := pass.schemas.Resolve(t)
 		if !found {
 			return false
 		}
